@@ -510,6 +510,7 @@ def t_listing_sources(eng):
         eng.inline.add('Excitation.current')
         eng.inline.add('Excitation.power')
         eng.inline.add('Excitation.impedance')
+        eng.assume(b_and(r_cmp('>=', idx, 0), r_cmp('<', idx, eng.getfield(m, 'current').length)))
         eng.assume(b_not(c_eq(eng.getitem(eng.getfield(m, 'current'), idx), 0)))
         s = eng.call_qual('Excitation.as_mininec', [src])
         convs = [t for t in s.toks if t[0] == 'conv']
